@@ -45,6 +45,9 @@ type d18IssuedLock struct {
 func d18Gen(t *rapid.T, st *vStat) *d18Case {
 	knownRec, knownText, knownZero := vIsKnown(d18KeyRecursion), vIsKnown(d18KeyTextWill), vIsKnown(d18KeyZeroId)
 	pct := func(label string) int { return rapid.IntRange(0, 99).Draw(t, label) }
+	if pct("mode") >= 62 {
+		return d18GenChain(t)
+	}
 	nBase := rapid.IntRange(2, 4).Draw(t, "conns")
 	nKeys := rapid.IntRange(1, 3).Draw(t, "keys")
 	nextId := 0
@@ -219,6 +222,166 @@ func d18Gen(t *rapid.T, st *vStat) *d18Case {
 		if n := d18StripRecursive(c); n > 0 {
 			st.Exclude("wills of a binary connection that is registered under its own client id when it closes (" + d18KeyRecursion + ")")
 		}
+	}
+	return c
+}
+
+// d18GenChain: one client id used by 2..7 successive binary connections ("reconnects"), some of them
+// overlapping (the successor announces the id while its predecessor is still open). Every member leaves
+// 0..3 requests queued behind holds of a blocker connection (one private key per request, so the script
+// decides when which request completes: the blocker unlocks that key) or with a short timeout, and holds
+// with short expiries. Completions, clock ticks and the server's session check (which trims the proxies a
+// connection adopted from its predecessors) are drawn between the members' lives; after the fourth member
+// a "burst" completes one request of every earlier member so that one connection adopts many proxies.
+func d18GenChain(t *rapid.T) *d18Case {
+	pct := func(label string) int { return rapid.IntRange(0, 99).Draw(t, label) }
+	const blocker = 50
+	n := rapid.IntRange(2, 7).Draw(t, "chain")
+	if pct("long") >= 50 && n < 5 {
+		n = rapid.IntRange(5, 7).Draw(t, "chainlong")
+	}
+	// deep variant: long chain, every member leaves >= 2 requests, nothing completes before a drawn member
+	// (the fifth or a later one) whose burst lets it adopt the proxies of all its predecessors
+	deep, burstAt := pct("deep") >= 60, -1
+	if deep {
+		n = rapid.IntRange(6, 7).Draw(t, "deepchain")
+		burstAt = rapid.IntRange(4, n-2).Draw(t, "burstAt")
+	}
+	cid := rapid.IntRange(0, 1).Draw(t, "cid")
+	nextKey, nextId := 0, 0
+	type pend struct{ member, key, bid int }
+	var pool []pend
+	var blockLocks []d18Cmd
+	members := make([][]d18Cmd, n)
+	for i := 0; i < n; i++ {
+		q := 0
+		switch p := pct("q"); {
+		case p < 12:
+			q = 0
+		case p < 30:
+			q = 1
+		case p < 65:
+			q = 2
+		default:
+			q = 3
+		}
+		if deep && q < 2 {
+			q = 2
+		}
+		cmds := []d18Cmd{{Op: "init", Cid: cid}}
+		for j := 0; j < q; j++ {
+			key := nextKey
+			nextKey++
+			rid := nextId
+			nextId++
+			if pct("byTimeout") >= 80 && !(deep && j < 2) {
+				// ends by TIMEOUT at a drawn later clock second; the key is held by the blocker for good
+				bid := nextId
+				nextId++
+				blockLocks = append(blockLocks, d18Cmd{Op: "lock", Key: key, Id: bid, T: 0, E: 300})
+				cmds = append(cmds, d18Cmd{Op: "lock", Key: key, Id: rid, T: rapid.IntRange(2, 12).Draw(t, "T"), E: rapid.IntRange(1, 4).Draw(t, "E")})
+				continue
+			}
+			bid := nextId
+			nextId++
+			blockLocks = append(blockLocks, d18Cmd{Op: "lock", Key: key, Id: bid, T: 0, E: 300})
+			cmds = append(cmds, d18Cmd{Op: "lock", Key: key, Id: rid, T: rapid.IntRange(60, 120).Draw(t, "Tlong"), E: rapid.IntRange(1, 4).Draw(t, "E")})
+			pool = append(pool, pend{i, key, bid})
+		}
+		if pct("hold") >= 60 {
+			cmds = append(cmds, d18Cmd{Op: "lock", Key: nextKey, Id: nextId, T: 0, E: rapid.IntRange(1, 5).Draw(t, "Ehold")})
+			nextKey++
+			nextId++
+		}
+		members[i] = cmds
+	}
+	c := &d18Case{}
+	c.Steps = append(c.Steps, d18Step{K: "open", C: blocker})
+	for len(blockLocks) > 0 {
+		k := 3
+		if k > len(blockLocks) {
+			k = len(blockLocks)
+		}
+		c.Steps = append(c.Steps, d18Step{K: "send", C: blocker, Cmds: append([]d18Cmd{}, blockLocks[:k]...), Batch: k > 1 && pct("bbatch") >= 50})
+		blockLocks = blockLocks[k:]
+	}
+	closed := make([]bool, n)
+	complete := func(i int) {
+		p := pool[i]
+		pool = append(pool[:i], pool[i+1:]...)
+		c.Steps = append(c.Steps, d18Step{K: "send", C: blocker, Cmds: []d18Cmd{{Op: "unlock", Key: p.key, Id: p.bid}}})
+	}
+	slot := func(cur int, allowBurst bool) {
+		if deep && cur < burstAt {
+			if pct("dtick") >= 80 {
+				c.Steps = append(c.Steps, d18Step{K: "tick", N: 1})
+			}
+			return
+		}
+		if allowBurst && cur >= 3 && (pct("burst") >= 45 || cur == burstAt) {
+			seen := map[int]bool{}
+			for i := 0; i < len(pool); {
+				if m := pool[i].member; m < cur && closed[m] && !seen[m] {
+					seen[m] = true
+					complete(i)
+					continue
+				}
+				i++
+			}
+		} else {
+			for k := rapid.IntRange(0, 2).Draw(t, "completions"); k > 0 && len(pool) > 0; k-- {
+				complete(rapid.IntRange(0, len(pool)-1).Draw(t, "which"))
+			}
+		}
+		if pct("session") >= 50 || (allowBurst && cur == burstAt && pct("dsession") >= 15) {
+			c.Steps = append(c.Steps, d18Step{K: "session"})
+		}
+		if pct("tick") >= 70 {
+			c.Steps = append(c.Steps, d18Step{K: "tick", N: rapid.IntRange(1, 3).Draw(t, "N")})
+		}
+	}
+	hows := []string{"eof", "eof", "magic", "version", "server", "server", "eof+server", "proto-race"}
+	closeStep := func(i int) {
+		c.Steps = append(c.Steps, d18Step{K: "close", C: i, How: hows[rapid.IntRange(0, len(hows)-1).Draw(t, "how")], Twice: pct("twice") >= 70})
+		closed[i] = true
+	}
+	prevOpen := -1
+	for i := 0; i < n; i++ {
+		c.Steps = append(c.Steps, d18Step{K: "open", C: i})
+		cmds := members[i]
+		for first := true; len(cmds) > 0; first = false {
+			k := rapid.IntRange(1, 3).Draw(t, "group")
+			if first {
+				k = 1 // the INIT alone: the predecessor of an overlapping pair closes right behind it
+			}
+			if k > len(cmds) {
+				k = len(cmds)
+			}
+			c.Steps = append(c.Steps, d18Step{K: "send", C: i, Cmds: append([]d18Cmd{}, cmds[:k]...), Batch: k > 1 && pct("batch") >= 65})
+			cmds = cmds[k:]
+			if first && prevOpen >= 0 {
+				if pct("lateclose") >= 50 {
+					slot(i, false) // completions while both announcers are open
+				}
+				closeStep(prevOpen)
+				prevOpen = -1
+			}
+		}
+		slot(i, true)
+		if i < n-1 && pct("overlap") >= 70 && !(deep && pct("doverlap") < 70) {
+			prevOpen = i
+			continue
+		}
+		if i == n-1 && pct("keeplast") >= 50 {
+			break
+		}
+		closeStep(i)
+		if pct("orphan") >= 70 {
+			slot(i, false) // completions while nobody holds the id
+		}
+	}
+	for k := rapid.IntRange(0, 3).Draw(t, "tail"); k > 0; k-- {
+		slot(n, false)
 	}
 	return c
 }
